@@ -39,11 +39,12 @@ def export_extra(rng, nv, pick, fresh, live):
 
 
 def case_capacity_tdd(cid, rng, cap):
-    """TDD: ternary capacity probe (T3FILL: single nodes until out-of-memory, all alive), history on a small manager
+    """TDD: ternary capacity probe (T3FILL: single nodes until out-of-memory, all alive: 12 nodes with terminal children
+    per variable, then nodes at level 0 over a base of two-valued functions), history on a small manager
     (automatic gc from 100 slots on, failing ops), drop all, gc, probe again"""
-    h, ops = ddgen.tdd_case_history(cid, rng, nv=rng.randrange(4, 6), length=rng.choice([40, 80]), cap=cap, addvars=False,
-                                    reorder=False)
-    fill = ddgen.t3fill_op(cap)
+    nv = rng.randrange(2, 6)
+    h, ops = ddgen.tdd_case_history(cid, rng, nv=nv, length=rng.choice([40, 80]), cap=cap, addvars=False, reorder=False)
+    fill = ddgen.t3fill_op(cap, nv)
     return (h, ops[:1] + [fill, "GC", "SNAP"] + ops[1:] + [fill, "GC", "SNAP"])
 
 
@@ -98,7 +99,7 @@ def gen_cases(ctx):
     for _ in range(300 if thorough else 36):
         cases.append(ddgen.tdd_case_history(f"th{cid}", rng, length=rng.choice([40, 80, 150]), threads=rng.choice([1, 1, 4]))); cid += 1
     for _ in range(200 if thorough else 24):
-        cases.append(case_capacity_tdd(f"tc{cid}", rng, rng.choice([20, 30, 45, 60, 90, 120, 160, 200]))); cid += 1
+        cases.append(case_capacity_tdd(f"tc{cid}", rng, rng.choice([6, 12, 20, 30, 45, 60, 90, 120, 160, 200]))); cid += 1
     return cases
 
 
@@ -140,7 +141,7 @@ def run(ctx):
     ddcommon.run_dd(
         ctx, ["C05"], cases, proofs=False,
         extra_cov={"gc_model_cases_ok": ok_s, "gc_model_cases_bad": len(bad_s)},
-        rule="MTBDD terminals: histories over I64 and F64 terminals with a snapshot after every op (model invariant on every lifted snapshot; every gc() and constant() replayed on the extracted terminal-manager model); managers with 3..12 terminal slots framed by the terminal capacity probe, constants re-created right after collections, gc before every op in a fifth of them; large managers (2-3 allocation chunks; thorough 2-5): sessions that create up to 1200 nodes, drop them and collect inside one manager session, then a capacity probe that fills the store completely; MTBDD histories (arithmetic, ite, restrict, constants; gc; final drop all + gc: no inner node and no terminal left, after every gc no unreferenced terminal survives); per kind (bdd, bcdd, zbdd): random histories (apply, quantification, substitution, clone, drop, drop on another thread, gc, add_vars, set_var_order) with a snapshot and the reference-count audit after every op and a final 'drop all; gc; snapshot'; small-capacity managers (120..500 nodes, automatic collection at the high-water mark, failing operations) framed by the capacity probe; tdd: 36 (thorough 300) random histories (constants, variables, not, 8 connectives, ite, cofactors, clone, drop, drop on another thread, gc, add_vars, set_var_order; 1 or 4 workers) with the generic audit AND the ternary audit td_rc_b after every op, no unreferenced node after gc, final 'drop all; gc; snapshot' = empty store; 24 (thorough 200) stores of 20..200 nodes framed by the ternary capacity probe T3FILL (single-node functions x0 op g, all alive, until out-of-memory: every slot in use), failing operations in between. non-trivial = case with >= 3 ops",
+        rule="MTBDD terminals: histories over I64 and F64 terminals with a snapshot after every op (model invariant on every lifted snapshot; every gc() and constant() replayed on the extracted terminal-manager model); managers with 3..12 terminal slots framed by the terminal capacity probe, constants re-created right after collections, gc before every op in a fifth of them; large managers (2-3 allocation chunks; thorough 2-5): sessions that create up to 1200 nodes, drop them and collect inside one manager session, then a capacity probe that fills the store completely; MTBDD histories (arithmetic, ite, restrict, constants; gc; final drop all + gc: no inner node and no terminal left, after every gc no unreferenced terminal survives); per kind (bdd, bcdd, zbdd): random histories (apply, quantification, substitution, clone, drop, drop on another thread, gc, add_vars, set_var_order) with a snapshot and the reference-count audit after every op and a final 'drop all; gc; snapshot'; small-capacity managers (120..500 nodes, automatic collection at the high-water mark, failing operations) framed by the capacity probe; tdd: 36 (thorough 300) random histories (constants, variables, not, 8 connectives, ite, cofactors, clone, drop, drop on another thread, gc, add_vars, set_var_order; 1 or 4 workers) with the generic audit AND the ternary audit td_rc_b after every op, no unreferenced node after gc, final 'drop all; gc; snapshot' = empty store; 24 (thorough 200) stores of 6..200 nodes framed by the ternary capacity probe T3FILL (single-node functions, all alive, until out-of-memory: every slot in use; per variable the 12 nodes with terminal children that a connective makes of x and the constant u, then nodes x0 op g at level 0), failing operations in between. non-trivial = case with >= 3 ops",
         allowed_axioms=ALLOWED_AXIOMS)
 
 
